@@ -189,6 +189,9 @@ class Search(abc.ABC):
         if max_evals_strict:
             # TODO: should be replaced by a property with a setter?
             self._evaluator.set_maximum_num_jobs_submitted(max_evals)
+        else:
+            # The maximum set by a previous strict call does not apply to this call
+            self._evaluator.set_maximum_num_jobs_submitted(-1)
 
         # save the search call arguments for the context
         self._call_args.append({"timeout": timeout, "max_evals": max_evals})
@@ -230,6 +233,10 @@ class Search(abc.ABC):
             self.dump_jobs_done_to_csv()
 
         self._evaluator.close()
+
+        # The time budget belongs to this call only
+        if np.isscalar(timeout) and timeout > 0:
+            self._evaluator.timeout = None
 
         if not (os.path.exists(self._path_results)):
             logging.warning(f"Could not find results file at {self._path_results}!")
